@@ -8,7 +8,10 @@ HOOK_FLAGS = ['-DMI_VERIF_HOOKS="%s"' % os.path.join(vlib.HARN, "hooks.h"), "-DM
               "-Dclock_gettime=verif_clock_gettime", "-Dsyscall=verif_syscall"]   # determinism: virtual clock, fixed getrandom stream
 
 KINDS = {
-    "C02": {"tfree": {"overlap", "content", "crash", "livelock", "fail"}, "exit": {"overlap", "content", "crash", "livelock"}},
+    "C02": {"tfree": {"overlap", "content", "crash", "livelock", "fail"}, "exit": {"overlap", "content", "crash", "livelock"},
+            # the producer/consumer program keeps pages in the full queue while several threads free into them and the owner collects:
+            # the window of the flag reset of mi_free_block_delayed_mt against the owner's list take-over (seed C02d)
+            "prodcons": {"overlap", "content", "crash"}},
     "C08": {"tfree": {"lost", "leak", "livelock"},
             # producer/consumer with a bounded number of live blocks (harness/prodcons.h); `unbounded` = the owner's heap holds more pages /
             # more remotely freed but unreclaimed blocks than the bound derived from the number of live blocks and the drain period
